@@ -412,12 +412,18 @@ EDGE_CODES = [2 ** 32 + 14, 2 ** 40 + 14, -4294967282, 2 ** 32, 4294967295, -1, 
               -2147483648, 2 ** 63, 255, 256, -128]
 GENERIC_OIDS = ["1.2.826.0.1.3344810.2.3", "2.16.840.1.113730.3.4.2", "1.3.6.1.1.12", "1.1", "9.9.9.9.1"]
 ATTRS = ["cn", "objectClass", "sAMAccountName", "member;range=0-*", "1.2.840.113556.1.4.221", "userCertificate;binary",
-         "o", "dc"]
+         "o", "dc", "memberOf", "MEMBEROF", "memberof", "CN", "Cn", "OBJECTCLASS"]
+# octet strings that look like something else: a TLS record, an HTTP request, BER of a whole LDAPMessage, long-form lengths,
+# a filter string, NULs - values are opaque, whatever they contain
+MAGIC = [bytes.fromhex("160301020001000200"), bytes.fromhex("1603"), b"GET / HTTP/1.1\r\n\r\n", bytes.fromhex("300c020101600702010304008000"),
+         bytes.fromhex("3084000000"), bytes.fromhex("a084ffffffff"), bytes.fromhex("308400000005020101"), b"(&(cn=*)(!(sn=x)))",
+         bytes.fromhex("0000000000"), bytes.fromhex("ff" * 6), bytes.fromhex("8000"), bytes.fromhex("020100")]
 TEXTS = ["", "a", "cn=admin,dc=example,dc=com", "Üser Näme", "名前", "x" * 7, "(paren)*\\", "uid=jdoe,ou=People,o=x",
          " ", "\x00nul", "dc=é"]
 MECHS = ["GSSAPI", "GSS-SPNEGO", "EXTERNAL", "DIGEST-MD5", "PLAIN", ""]
 EXT_OIDS = ["1.3.6.1.4.1.1466.20037", "1.3.6.1.4.1.4203.1.11.3", "1.3.6.1.4.1.4203.1.11.1", "1.2.3.4.5"]
-INT_OK = [0, 1, 2, 100, 127, 128, 255, 256, 1000, 32767, 32768, 65535, 65536, 16777215, 16777216, 2147483647]
+INT_OK = [0, 1, 2, 100, 127, 128, 255, 256, 1000, 32767, 32768, 65535, 65536, 16777215, 16777216, 2147483647, 0x1603, 0x160301,
+          2147483646]
 INT_ODD = [-1, -127, -128, -129, -255, -256, -32768, -32769, -65536, -65537, -16777216, -2147483648, 2147483648,
            4294967296, -4294967296, 2 ** 63]
 BOUNDARY_LENS = [0, 1, 2, 5, 16, 100, 120, 125, 126, 127, 128, 129, 130, 200, 250, 253, 254, 255, 256, 257, 300]
@@ -447,7 +453,12 @@ class Gen:
     def blob(self):
         n = self.length()
         r = self.r
-        mode = r.randrange(4)
+        mode = r.randrange(5)
+        if mode == 4:
+            m = r.choice(MAGIC)
+            pad = max(0, n - len(m))
+            k = r.randrange(pad + 1)
+            return (b"\x41" * k + m + b"\x42" * (pad - k)).hex()
         if mode == 0:
             return bytes(r.getrandbits(8) for _ in range(min(n, 64))).ljust(n, b"\xa5").hex() if n else ""
         if mode == 1:
